@@ -93,7 +93,7 @@ func tryToFloat64(v reflect.Value) (float64, error) {
 		return v.Float(), nil
 	case reflect.Int64, reflect.Int32, reflect.Int16, reflect.Int8, reflect.Int:
 		return float64(v.Int()), nil
-	case reflect.Uint64, reflect.Uint32, reflect.Uint16, reflect.Uint8, reflect.Uint:
+	case reflect.Uint64, reflect.Uint32, reflect.Uint16, reflect.Uint8, reflect.Uint, reflect.Uintptr:
 		return float64(v.Uint()), nil
 	case reflect.Bool:
 		if v.Bool() {
@@ -130,7 +130,7 @@ func tryToInt64(v reflect.Value) (int64, error) {
 		return int64(v.Float()), nil
 	case reflect.Int64, reflect.Int32, reflect.Int16, reflect.Int8, reflect.Int:
 		return v.Int(), nil
-	case reflect.Uint64, reflect.Uint32, reflect.Uint16, reflect.Uint8, reflect.Uint:
+	case reflect.Uint64, reflect.Uint32, reflect.Uint16, reflect.Uint8, reflect.Uint, reflect.Uintptr:
 		return int64(v.Uint()), nil
 	case reflect.Bool:
 		if v.Bool() {
@@ -176,7 +176,7 @@ func tryToInt(v reflect.Value) (int, error) {
 		return int(v.Float()), nil
 	case reflect.Int64, reflect.Int32, reflect.Int16, reflect.Int8, reflect.Int:
 		return int(v.Int()), nil
-	case reflect.Uint64, reflect.Uint32, reflect.Uint16, reflect.Uint8, reflect.Uint:
+	case reflect.Uint64, reflect.Uint32, reflect.Uint16, reflect.Uint8, reflect.Uint, reflect.Uintptr:
 		return int(v.Uint()), nil
 	case reflect.Bool:
 		if v.Bool() {
